@@ -218,6 +218,12 @@ def run_case(case: Dict[str, Any]) -> Dict[str, Any]:
         for _ in range(50):
             k = base64.b64encode(bytes(rng.getrandbits(8) for _ in range(rng.choice([16, 16, 0, 1, 40])))) \
                 if rng.random() < 0.8 else bytes(rng.getrandbits(8) for _ in range(rng.randint(0, 30)))
+            if rng.random() < 0.25:
+                # "for every key": keys that begin or end with bytes a tidy-minded implementation might trim or fold
+                ws = [b' ', b'\t', b'\r', b'\n', b'\r\n', b'\x0b', b'\x0c', b'\x00', b'=', b'"']
+                k = rng.choice(ws + [b'']) + k + rng.choice(ws + [b''])
+            if rng.random() < 0.1:
+                k = k.lower() if rng.random() < 0.5 else k.upper()
             try:
                 WebsocketFrame.key_to_accept(k)
             except ContractBroken:
